@@ -27,6 +27,10 @@ func (f *Frame) String() string {
 }
 
 func (f *Frame) Read(r io.Reader) ([]byte, error) {
+	// An empty payload (e.g. the empty string literal) is valid: nothing to read
+	if f.size == 0 {
+		return []byte{}, nil
+	}
 	buf := framePool.Get().(*[]byte) // nolint:errcheck
 	defer framePool.Put(buf)
 
